@@ -491,11 +491,11 @@ def c05_families(tier, seed, ids=None):
     ex = []
     extreme = [bin_("<<", I(1), I(64)), bin_("<<", I(1), I(-1)), bin_(">>", I(1), I(100)), bin_(">>", I(-1), I(1)), bin_("<<", I(-1), I(63)),
                bin_("/", Fl(1, 0), Fl(0, 0)), bin_("/", Fl(0, 0), Fl(0, 0)), bin_("%", I(5), I(0)), bin_("/", I(5), I(0)),
-               {"t": "bigint", "txt": "9223372036854775807"}, bin_("+", {"t": "bigint", "txt": "9223372036854775807"}, I(1)),
-               bin_("/", bin_("-", un("-", {"t": "bigint", "txt": "9223372036854775807"}), I(1)), I(-1)),
-               bin_("%", bin_("-", un("-", {"t": "bigint", "txt": "9223372036854775807"}), I(1)), I(-1)),
-               bin_("*", {"t": "bigint", "txt": "4611686018427387904"}, I(4)),
-               ix1(St("ab"), {"t": "bigint", "txt": "9223372036854775807"}), ix2(lst([I(1)]), I(-1), {"t": "bigint", "txt": "9223372036854775807"}),
+               I(9223372036854775807), bin_("+", I(9223372036854775807), I(1)),
+               bin_("/", bin_("-", un("-", I(9223372036854775807)), I(1)), I(-1)),
+               bin_("%", bin_("-", un("-", I(9223372036854775807)), I(1)), I(-1)),
+               bin_("*", I(4611686018427387904), I(4)),
+               ix1(St("ab"), I(9223372036854775807)), ix2(lst([I(1)]), I(-1), I(9223372036854775807)),
                call("toa", bin_("/", Fl(1, 0), Fl(0, 0))), call("aton", St("1e999")), call("aton", St("9223372036854775808")), call("aton", St("-")),
                call("fromto", I(0), Fl(5, 1)), call("elems", I(3)), call("indices", N("nn")), call("write"), call("toa", I(1), I(2)), call("read", I(1))]
     for e in extreme:
@@ -638,6 +638,9 @@ def c09_forms():
             ("if-const", iff(Bo(True), I(5))), ("if-computed", iff(bin_("<", N("gx"), I(999)), I(5))), ("if-false", iff(bin_(">", N("gx"), I(999)), I(5))),
             ("ifelse", ife(bin_("<", N("gx"), I(2)), I(5), St("a"))), ("while", wh(bin_("<", N("gx"), I(0)), I(1))),
             ("for", fr(["w"], [call("fromto", I(0), I(2))], N("w"))), ("for2", fr(["w", "u"], [call("fromto", I(0), I(2)), call("fromto", I(0), I(3))], N("u"))),
+            ("for2-second-shorter", fr(["w", "u"], [call("fromto", I(0), I(3)), call("fromto", I(0), I(1))], N("w"))),
+            ("for2-second-empty", fr(["w", "u"], [call("elems", St("ab")), call("fromto", I(1), I(1))], N("w"))),
+            ("for3-middle-shortest", fr(["w", "u", "z"], [call("fromto", I(0), I(4)), call("fromto", I(0), I(1)), call("fromto", I(0), I(3))], N("z"))),
             ("block", block([I(8), bin_("+", N("gx"), I(9))])), ("yield", y(bin_("+", N("gx"), I(1)))), ("fnlit", fn([], I(1))),
             ("call", call("id", N("gx"))), ("list", lst([N("gx"), bin_("+", N("gx"), I(1))])), ("index", ix1(lst([I(1), I(2)]), bin_("-", N("gx"), N("gx")))),
             ("if-in-if", iff(bin_("<", N("gx"), I(999)), iff(bin_("<", N("gx"), I(998)), I(1)))),
@@ -790,6 +793,10 @@ def c12_families(tier, seed, ids=None):
         e2 = e2[seed % 9::9]
     out = [("expressions depth 1 x contexts", gens.context_sessions(e1, first_id=1), ("value",)),
            ("expressions depth 2 x contexts", gens.context_sessions(e2, first_id=1000000), ("value",))]
+    ed = gens.exprs_deep()
+    if tier == "quick":
+        ed = ed[seed % 4::4]
+    out.append(("operands with >= 2 operators inside x operator depth 0-3 x contexts", gens.context_sessions(ed, first_id=1500000, ctx_filter={"top", "midblock", "fntail", "arg", "assign", "elem2", "forbody", "ifcond", "yield", "write"}), ("value",)))
     ids = Ids(2000000)
     # rewrite pairs of the property text
     rw = []
@@ -870,6 +877,10 @@ def c17_families(tier, seed, ids=None):
     rt.append(mk(ids, [assign("bad", lst([])), fr(["n"], [call("elems", lst([I(p) for p in pw] + [I(-p) for p in pw]))], iff(bin_("!=", call("aton", call("toa", N("n"))), N("n")), assign("bad", bin_("+", N("bad"), lst([N("n")]))))), N("bad")], {"roundtrip": "powers"}))
     fls = [Fl(n, e, neg) for n in (1, 3, 5, 7, 100, 1001) for e in (0, 1, 2, 3) for neg in (False, True)]
     rt.append(mk(ids, [assign("bad", lst([])), fr(["n"], [call("elems", lst(fls))], iff(bin_("!=", call("aton", call("toa", N("n"))), N("n")), assign("bad", bin_("+", N("bad"), lst([N("n")]))))), N("bad")], {"roundtrip": "floats"}))
+    bigs = [(1 << 31) - 1, 1 << 31, (1 << 31) + 1, -(1 << 31) - 1, 1 << 32, (1 << 53) + 1, 10 ** 17 + 7, (1 << 62) + 3, 999999999999999999, -999999999999999999, 1073741825, 1073741824, 1073741823]
+    for b in bigs:
+        rt.append(mk(ids, [call("toa", call("aton", call("toa", I(b)))), call("aton", St(str(b))), call("write", call("aton", St(str(b)))), bin_("==", call("aton", call("toa", I(b))), I(b)),
+                           call("toa", lst([I(b), call("aton", St(str(b)))]))], {"bigint": b}))
     for s in ["12", "-7", "1.5", "0.25", "-3.0", "zz", "", "12a", " 1", "007", "1000", "1.", ".5", "--1", "1e3", "0x10", "1_0", "+5", "Inf", "NaN"]:
         rt.append(mk(ids, [call("aton", St(s))], {"aton": s}))
     out.append(("aton(toa(n)) == n and aton forms", rt, ("value",)))
